@@ -324,6 +324,15 @@ func replayRun(r *vh.Runner, c *vh.Case, i int) {
 	m := &monitor{seed: r.Seed, written: map[msgID]int{}, seen: map[msgID]int{}, c: c, r: r, phase: "long-replay"}
 	var rmu sync.Mutex
 	var rec [2][]simnet.Delivery // per direction, in wire order
+	// a few packets are held back on their way and arrive for the first time
+	// when the newest counter is a chosen distance ahead (the window edge is
+	// 448), then once more
+	type heldBack struct {
+		dir, idx, target int
+		dl               simnet.Delivery
+	}
+	var held []heldBack
+	lateBeyondWindow := map[uint64]bool{} // counters that legitimately never arrive in time
 	w.Net.SetPolicy(func(d *simnet.Datagram) []simnet.Delivery {
 		dl := simnet.Delivery{Data: append([]byte(nil), d.Data...), Src: d.Src, Dst: d.Dst, Tag: "genuine"}
 		if len(d.Data) >= 16 && d.Data[0] == 0x10 {
@@ -332,11 +341,52 @@ func replayRun(r *vh.Runner, c *vh.Case, i int) {
 				dir = 0
 			}
 			rmu.Lock()
+			defer rmu.Unlock()
 			rec[dir] = append(rec[dir], dl)
-			rmu.Unlock()
+			if len(held) < 12 && rng.Chance(0.03) {
+				h := heldBack{dir: dir, idx: len(rec[dir]) - 1, target: rng.Pick(1, 2, 63, 64, 65, 128, 446, 447, 448, 448, 449, 450, 470), dl: dl}
+				h.dl.Tag = fmt.Sprintf("held-back-until-%d-behind", h.target)
+				held = append(held, h)
+				return nil
+			}
 		}
 		return []simnet.Delivery{dl}
 	})
+	releaseDue := func() {
+		rmu.Lock()
+		var due []heldBack
+		rest := held[:0]
+		for _, h := range held {
+			if len(rec[h.dir])-1-h.idx >= h.target {
+				due = append(due, h)
+			} else {
+				rest = append(rest, h)
+			}
+		}
+		held = rest
+		rmu.Unlock()
+		if len(due) == 0 {
+			return
+		}
+		bub.Settle(2 * time.Millisecond) // the receiver has processed everything sent so far
+		for _, h := range due {
+			rmu.Lock()
+			behind := len(rec[h.dir]) - 1 - h.idx
+			rmu.Unlock()
+			if behind > 448 {
+				lateBeyondWindow[uint64(h.dir)<<32|uint64(h.idx)] = true
+			}
+			w.Net.Inject(h.dl)
+			bub.Settle(time.Millisecond)
+			dup := h.dl
+			dup.Tag = "held-back-duplicate"
+			w.Net.Inject(dup)
+			if rng.Bool() {
+				w.Net.Inject(dup)
+			}
+			r.Count("packets_held_back_then_duplicated", 1)
+		}
+	}
 	total := rng.Pick(70, 130, 200, 520)
 	if r.Thorough() && rng.Chance(0.3) {
 		total = rng.Pick(700, 1100)
@@ -355,6 +405,15 @@ func replayRun(r *vh.Runner, c *vh.Case, i int) {
 				back := rng.Pick(0, 1, 2, 31, 62, 63, 64, 65, 66, 127, 128, 129, 191, 192, 193, 255, 256, 300, 383, 384, 446, 447, 448, 449, 450, 511, 512, 513, 600, rng.Intn(n))
 				if back >= n {
 					back = n - 1
+				}
+				stillHeld := false
+				for _, h := range held {
+					if h.dir == dir && h.idx == n-1-back {
+						stillHeld = true // never delivered yet: a copy of it would be the first arrival, not a replay
+					}
+				}
+				if stillHeld {
+					continue
 				}
 				dl := rec[dir][n-1-back]
 				dl.Tag = fmt.Sprintf("replay-%d-behind", back)
@@ -383,6 +442,7 @@ func replayRun(r *vh.Runner, c *vh.Case, i int) {
 					return
 				}
 			}
+			releaseDue()
 		}
 		sent += k
 		bub.Settle(5 * time.Millisecond)
@@ -401,8 +461,21 @@ func replayRun(r *vh.Runner, c *vh.Case, i int) {
 	if c.Violated() {
 		return
 	}
-	if miss := m.missing(func(msgID) bool { return true }); len(miss) > 0 {
-		c.Violate("C03:message-lost-on-faithful-network:long-replay", map[string]any{"missing": miss[:min(len(miss), 8)], "n_missing": len(miss), "replays": replays})
+	// every message arrives exactly once, except those whose only copy was held
+	// back beyond the window (or is still held): message #q of a direction
+	// travelled in that direction's q-th packet
+	exempt := map[msgID]bool{}
+	rmu.Lock()
+	for _, h := range held {
+		lateBeyondWindow[uint64(h.dir)<<32|uint64(h.idx)] = true
+	}
+	rmu.Unlock()
+	for key := range lateBeyondWindow {
+		dir, idx := byte(key>>32), uint32(key)
+		exempt[msgID{s.idx, dir, 0, 2*idx + 1 + uint32(dir)}] = true
+	}
+	if miss := m.missing(func(id msgID) bool { return !exempt[id] }); len(miss) > 0 {
+		c.Violate("C03:message-lost-on-faithful-network:long-replay", map[string]any{"missing": miss[:min(len(miss), 8)], "n_missing": len(miss), "replays": replays, "held_beyond_window": len(exempt)})
 		return
 	}
 	r.Nontrivial(fmt.Sprintf("long-replay|%d|%d", i, total))
